@@ -30,7 +30,7 @@ func init() {
 		Text: "Run holds the evaluator's mutex around Execute on every path; Prepare holds it by defer."})
 	register(&Rule{ID: "R-NONDETSRC", Floor: 4, Run: ruleNondetSrc,
 		Text: "The library starts no goroutine, has no select with more than one communication case, prints no pointer values (%p) and converts no pointer to an integer."})
-	register(&Rule{ID: "R-MAPORDER", Floor: 7, Run: ruleMapOrder,
+	register(&Rule{ID: "R-MAPORDER", Floor: 6, Run: ruleMapOrder,
 		Text: "Every iteration over a Go map (range or reflect MapKeys) is order-insensitive (its body only inserts into a map), or only collects into one slice that is sorted before any other use with a comparator that is total on the collected elements, or is listed with its reason."})
 	register(&Rule{ID: "R-HASHKEY", Floor: 3, Run: ruleHashKey,
 		Text: "Every HashKey() implementation fills both the type component (from the object's own Type()) and the value component, so keys of different types that print alike stay distinct."})
@@ -473,6 +473,25 @@ func ruleGlobals(p *Program, r *Reporter) {
 						globs[g].reads = append(globs[g].reads, ins)
 					}
 					for _, ref := range liveRefs(u) {
+						// a method invoked on the object the variable holds (hasher.Write(…),
+						// buffer.Reset()): the object is shared by every evaluator in the
+						// process, and unless the method is known not to change it the call
+						// counts as a write
+						if ci, ok := ref.(ssa.CallInstruction); ok && !isInitFn(fn) {
+							cc := ci.Common()
+							recv := cc.IsInvoke() && cc.Value == ssa.Value(u)
+							if cal := cc.StaticCallee(); cal != nil && cal.Signature.Recv() != nil && len(cc.Args) > 0 && cc.Args[0] == ssa.Value(u) {
+								if fnPkg(cal) != nil && strings.HasPrefix(fnPkg(cal).Pkg.Path(), Mod) {
+									recv = storesThroughReceiver(cal, map[*ssa.Function]bool{})
+								} else {
+									_, isPtr := cal.Signature.Recv().Type().Underlying().(*types.Pointer)
+									recv = isPtr && !isStdNamed(deref(cal.Signature.Recv().Type()), "regexp", "Regexp") && !isStdNamed(deref(cal.Signature.Recv().Type()), "time", "Location")
+								}
+							}
+							if recv {
+								globs[g].writes = append(globs[g].writes, ci)
+							}
+						}
 						switch x := ref.(type) {
 						case *ssa.MapUpdate:
 							if x.Map == ssa.Value(u) && !isInitFn(fn) {
@@ -553,6 +572,37 @@ func ruleGlobals(p *Program, r *Reporter) {
 			r.Fail(key, p.Pos(g.Pos()), "this package-level variable is written while scripts run and is accessed without a package-level mutex held (first at "+bad+"): two evaluators used from different goroutines race on it (concurrent map access is fatal)"+extra)
 		}
 	}
+}
+
+// storesThroughReceiver: the method (or a method of the same receiver it
+// calls) assigns a field or element reachable from its receiver.
+func storesThroughReceiver(fn *ssa.Function, seen map[*ssa.Function]bool) bool {
+	if seen[fn] || len(fn.Params) == 0 {
+		return false
+	}
+	seen[fn] = true
+	recv := ssa.Value(fn.Params[0])
+	for _, b := range fn.Blocks {
+		for _, ins := range b.Instrs {
+			switch x := ins.(type) {
+			case *ssa.Store:
+				if _, isAlloc := x.Addr.(*ssa.Alloc); !isAlloc && derivedFromArgs(x.Addr, recv, 0) {
+					return true
+				}
+			case *ssa.MapUpdate:
+				if derivedFromArgs(x.Map, recv, 0) {
+					return true
+				}
+			case *ssa.Call:
+				if cal := x.Call.StaticCallee(); cal != nil && len(x.Call.Args) > 0 && x.Call.Args[0] == recv && cal.Signature.Recv() != nil {
+					if storesThroughReceiver(cal, seen) {
+						return true
+					}
+				}
+			}
+		}
+	}
+	return false
 }
 
 // heldAt: forward must-analysis of "some package-level mutex is held" at ins.
@@ -887,9 +937,9 @@ func earlyExit(rs *ast.RangeStmt) ast.Node {
 // collected elements, by element type.
 var injectiveReads = map[string][]string{
 	"object.HashPair": {"Inspect", "Type"}, // printed form plus type identifies a hashable key
-	// keys of a hash literal: the key's text, then the text of the value it maps
-	// to — pairs equal in both compile to identical code, so their order is moot
-	"ast.Expression": {"String", "mapped-value.String"},
+	// (the printed form of a syntax node does NOT identify it: "a<newline>" and
+	// "a\\n" print alike — an entry that used to be here for ast.Expression was
+	// wrong, see F30)
 }
 
 func ruleMapOrder(p *Program, r *Reporter) {
@@ -972,6 +1022,30 @@ func ruleMapOrder(p *Program, r *Reporter) {
 	}
 }
 
+// printedFormKey: the expression is (or contains) String() / Inspect() of a
+// value of a module type.
+func printedFormKey(info *types.Info, e ast.Expr) string {
+	why := ""
+	ast.Inspect(e, func(n ast.Node) bool {
+		ce, ok := n.(*ast.CallExpr)
+		if !ok {
+			return true
+		}
+		sel, ok := ce.Fun.(*ast.SelectorExpr)
+		if !ok || (sel.Sel.Name != "String" && sel.Sel.Name != "Inspect") {
+			return true
+		}
+		if tv, ok := info.Types[sel.X]; ok {
+			t := deref(tv.Type)
+			if n, ok := types.Unalias(t).(*types.Named); ok && n.Obj().Pkg() != nil && strings.HasPrefix(n.Obj().Pkg().Path(), Mod) {
+				why = "the printed form (" + sel.Sel.Name + "()) of a " + n.Obj().Pkg().Name() + "." + n.Obj().Name()
+			}
+		}
+		return true
+	})
+	return why
+}
+
 // classifyMapLoop inspects the body of a range over a map.
 func classifyMapLoop(p *Program, info *types.Info, rs *ast.RangeStmt, block []ast.Stmt) (string, string) {
 	declared := map[types.Object]bool{}
@@ -1001,6 +1075,13 @@ func classifyMapLoop(p *Program, info *types.Info, rs *ast.RangeStmt, block []as
 					case *ast.IndexExpr:
 						if tv, ok := info.Types[lx.X]; ok {
 							if _, isMap := tv.Type.Underlying().(*types.Map); isMap {
+								// two entries whose derived keys collide overwrite each other
+								// in iteration order: the printed form of a syntax node or
+								// object does not identify it
+								if why := printedFormKey(info, lx.Index); why != "" {
+									other = "insertion under a key that is " + why + " — entries that print alike overwrite each other, last one in map order wins"
+									continue
+								}
 								inserts++
 								continue
 							}
